@@ -226,6 +226,7 @@ type VC struct {
 	mapLenUse int // 0 unknown, 1 yes, -1 no
 	curClo    *closureVal // closure being called (for contracts that mention captured variables)
 	rangeGhosts map[*ssa.Range]*rangeGhost // visited-set ghost state of range-over-map loops
+	callSt    map[string]*State // memory state right after the latest call per callee (for aftercall("F", e))
 	callRes   map[string][]Val // results of the latest call per callee in the function under verification
 	callCount map[string]int
 	lemma     *Lemma
